@@ -517,3 +517,53 @@ def script_panel(tier):
 
 
 PANELS["script"] = script_panel
+
+
+# --------------------------------------------------------------------------
+def optvar2_panel(tier):
+    """valid non-default settings of the remaining documented options that the code reads (GP training-set size and
+    radius, poll early-stop rules, incumbent uncertainty, refit policy, search scale factors, nonlinear scaling):
+    'every supported option combination' of C09, and each run is validated against both trace specifications"""
+    sd = _seed()
+    r = S.rnd(("optvar2", sd))
+    out = []
+    nsc = 16 if tier == "quick" else 120
+    groups = [
+        {"tol_poi": 0.0}, {"tol_poi": 1e-2}, {"min_failed_poll_steps": 1}, {"min_failed_poll_steps": 0, "consecutive_skipping": False},
+        {"improvement_quantile": 0.3}, {"incumbent_sigma_multiplier": 0.5}, {"uncertain_incumbent": False},
+        {"n_train_max": 20, "n_train_min": 10, "buffer_ntrain": 5}, {"gp_radius": 2.0}, {"use_effective_radius": False},
+        {"double_refit": True}, {"mesh_noise_multiplier": 0.0}, {"search_scale_success": 2.0, "search_scale_failure": 0.5},
+        {"final_quantile": 0.1}, {"alternative_incumbent": True}, {"adaptive_incumbent_shift": True},
+        {"nonlinear_scaling": False}, {"noise_size": 0.5}, {"gp_rescale_poll": 0.5}, {"search_optimize": True},
+        {"poll_training": False}, {"remove_points_after_tries": 2},
+        # not varied: fit_lik=False selects a fixed-noise ("delta") hyperprior that gpyreg does not implement -- an
+        # unported feature that fails with gpyreg's "Unknown hyperprior type delta", like periodic_vars
+    ]
+    for j in range(nsc):
+        D = r.choice([1, 2, 2, 3])
+        o = {"max_fun_evals": r.choice([60, 90, 120])}
+        picked = []
+        # every group is used in turn (so that quick covers most of them), plus one or two random ones
+        for gi in {j % len(groups), (7 * j + 3) % len(groups), r.randrange(len(groups))}:
+            o.update(groups[gi])
+            picked.append(gi)
+        noisy = (j % 3 == 1)
+        noise = None
+        if noisy:
+            noise = {"mode": r.choice(["declared", "auto", "specified"]), "sigma": r.choice([0.3, 1.0]), "sd_kind": "const"}
+            o["noise_final_samples"] = r.choice([0, 2, 5])
+            o["max_fun_evals"] += 30
+        if j % 4 == 3:      # log-eligible geometry (matters for nonlinear_scaling)
+            geom = {"lb": [1e-3] * D, "ub": [1e3] * D, "plb": [1e-2] * D, "pub": [1e2] * D, "x0": [round(r.uniform(0.5, 5), 3) for _ in range(D)]}
+            target = {"family": "logquad", "min": [round(10 ** r.uniform(-1, 1.5), 3) for _ in range(D)]}
+        else:
+            x0 = [round(r.uniform(-4, 4), 3) for _ in range(D)]
+            geom = S.box_geom(D, x0=x0)
+            mn = None if j % 2 else [round(r.uniform(5.5, 8), 2) * r.choice([-1, 1]) for _ in range(D)]
+            target = _quad(D, r, cond=10.0, mn=mn)
+        out.append(_sc(f"ow{j}", D, geom, target, noise=noise, options=o, seed=r.randrange(10 ** 6),
+                       tags=["optvar2"] + (["noisy"] if noisy else []) + [f"g{g}" for g in sorted(picked)]))
+    return out
+
+
+PANELS["optvar2"] = optvar2_panel
